@@ -264,7 +264,7 @@ _ENTRY = _ast.parse("def __spec__(): pass").body[0]
 CORE_OPS = {
     "const", "sym", "dim", "tuple", "slice", "list", "getitem", "add", "sub", "neg", "mul", "smul", "div", "sdiv", "pow",
     "matmul", "T", "phi", "not", "and", "or", "lt", "le", "gt", "ge", "eq", "ne", "is", "isnot", "in", "notin", "reshape1",
-    "astype", "dg", "kw", "store", "head", "lv", "loop", "comp", "range", "undef", "truthy", "loopctl", "with_kw", "bitand",
+    "astype", "bcast", "dg", "kw", "store", "head", "lv", "loop", "comp", "range", "undef", "truthy", "loopctl", "with_kw", "bitand",
     "bitor", "invert", "min", "max", "mod", "floordiv", "sqrt", "abs", "zeros", "eye", "int", "len", "shape", "kv", "dict",
     "method", "fn", "attr", "mcall", "after", "new", "obj", "raises", "stale", "reshape", "transpose", "elem", "key", "enumerate", "zip", "star",
 }
